@@ -23,3 +23,60 @@ def run(prog, chk):
     C.clear_resets(prog, chk, "C03.c3", SEQ)
     C.swap_handover(prog, chk, "C03.c4", ["List", "PoolList", "Array"])
     C.iterator_param_alias(prog, chk, "C03.d", SEQ)
+    index_guard(prog, chk, "C03.e")
+
+
+def index_guard(prog, chk, rid):
+    """DOM: an element position computed from an integer parameter (`_begin.item + index`) is used for a write, a destruction or a
+    shrink of the array only under a dominating test that places the index strictly below the current size."""
+    import re
+    from .. import q, fin
+    chk.rule(rid, "DOM: in Array members that take an integer index and shrink the array by one element (removal by index), every modification of the array (`_end.item` update, element assignment, "
+                  "destructor call) is dominated by `index < size()` with size = _end.item - _begin.item", floor=2)
+    for tn, fs in sorted(C.class_insts(prog, "Array").items()):
+        for f in fs:
+            if f.cls != tn or f.d.get("const"):
+                continue
+            idx = [p for p in f.params if p["t"] in ("unsigned long", "usize", "unsigned int", "long", "int")
+                   and any(n["k"] == "BinaryOperator" and n.get("op") == "+" and len(n["c"]) == 2 and q.no_casts(f.r(n["c"][0])) == "this->_begin.item"
+                           and re.fullmatch(re.escape(p["n"]), q.no_casts(f.r(n["c"][1]))) for n in f.nodes)]
+            shrink = [i for i, n in enumerate(f.nodes) if n["k"] == "UnaryOperator" and "--" in str(n.get("op")) and q.no_casts(f.r(n["c"][0])) == "this->_end.item"]
+            shrink += [s.node for s in q.stores(f) if q.no_casts(f.r(s.lhs)) == "this->_end.item" and s.rhs is not None
+                       and q.no_casts(f.r(s.rhs)).replace(" ", "") == "(this->_end.item-1)"]
+            if not idx or not shrink:
+                continue     # only removal by index: the member shrinks the array by one element
+            defs = q.local_defs(f)
+            size_texts = ("(this->_end.item - this->_begin.item)", "this->size()")
+            for p in idx:
+                mods = [s.node for s in q.stores(f) if q.no_casts(f.r(s.lhs)) == "this->_end.item" or q.no_casts(f.r(s.lhs)).startswith("*")]
+                mods += [i for i, n in enumerate(f.nodes) if n["k"] == "UnaryOperator" and "--" in str(n.get("op")) and q.no_casts(f.r(n["c"][0])) == "this->_end.item"]
+                mods += [d for d, _o in C.dtor_events(f)]
+                bad = None
+                for m in sorted(set(mods)):
+                    pos = f.node_pos(m)
+                    if pos is None:
+                        continue
+                    ok = False
+                    for a in fin.dominating_atoms(f, pos):
+                        if a[0] == "case":
+                            continue
+                        n = f.nodes[f.strip(a[0])]
+                        if n["k"] != "BinaryOperator" or len(n["c"]) != 2:
+                            continue
+                        l = q.no_casts(q.xr(f, n["c"][0], defs))
+                        r = q.no_casts(q.xr(f, n["c"][1], defs))
+                        op, truth = n["op"], a[1]
+                        I = p["n"]
+                        if (truth and ((op == "<" and l == I and r in size_texts) or (op == ">" and r == I and l in size_texts))) or \
+                           (not truth and ((op == ">=" and l == I and r in size_texts) or (op == "<=" and r == I and l in size_texts))):
+                            ok = True
+                    if not ok:
+                        bad = m
+                        break
+                if bad is not None:
+                    chk.bad(rid, f, "array-modified-without-index-below-size:" + p["n"], f.where(bad),
+                            "`%s` modifies the array although no dominating test establishes %s < size(): for %s == size() the slot behind the last "
+                            "element is destroyed and the array loses its last element (size() wraps below zero on an empty array)"
+                            % (f.r(bad)[:50], p["n"], p["n"]), evals=len(mods))
+                else:
+                    chk.ok(rid, f, "every modification under %s < size()" % p["n"], "%s:%s" % (f.file, f.line), "%d modifying sites, dominating comparison" % len(set(mods)), evals=max(1, len(set(mods))))
